@@ -149,6 +149,11 @@ def main(scale):
         attempt('h%d take-reorder' % h, lambda: repr(a.take(list(a.objects)[::-1][:3], None, reorder=True)))
         attempt('h%d inverted' % h, lambda: repr(~a))
         attempt('h%d transposed' % h, lambda: repr(-a))
+        import copy
+        import pickle
+        attempt('h%d deepcopy' % h, lambda: repr(copy.deepcopy(a)))
+        attempt('h%d pickle' % h, lambda: repr(pickle.loads(pickle.dumps(b))))
+        attempt('h%d copy-table' % h, lambda: copy.deepcopy(d).tostring() if d.objects and d.properties else '')
     # sparse definitions: many empty rows / columns, few survivors
     for h in range(8 * scale):
         no, npr = rng.randint(6, 12), rng.randint(6, 12)
